@@ -170,6 +170,14 @@ def gen_steady(rnd, spec):
             p["when"] = "queued"
             gen["payloads"].append(p)
             expected.append(p["id"])
+    if rnd.random() < 0.3:
+        # payloads queued on another runner object of the same process that is never started
+        gen["idle_runner"] = []
+        for i in range(rnd.randint(1, 4)):
+            p = leaf(rnd, "idle_runner_%d" % i)
+            p["program"] = [["sleep", 0.01]]
+            gen["payloads"].append(p)
+            gen["idle_runner"].append(p["id"])
     script.append(["sleep", delay * 12])  # 10+ polling cycles
     script += late
     script.append(["sleep", 0.35 + delay * 14])
@@ -403,6 +411,11 @@ def judge(case, run, result):
             if len(starts) > 1:
                 problems.append(("service %s (dropped after a while) was started %d times" % (pid, len(starts)), None))
             result.count("dropped_services_%s" % ("started_once" if starts else "collected_before_the_loop_saw_them"))
+        for pid in gen.get("idle_runner", []):
+            if run.of("queued-on-idle-runner", gen=G, pid=pid):
+                result.count("payloads_queued_on_a_runner_that_is_never_started")
+                if run.of("start", pid=pid):
+                    problems.append(("payload %s was queued on a second runner object that was never started, and was started all the same - by the runtime of the other runner" % pid, None))
         result.count("adoptions_judged", len(case["meta"]["expected"]))
         if case["meta"].get("again"):
             result.count("scenarios_in_the_second_run_of_the_same_runner")
@@ -519,7 +532,7 @@ def finish(total, tier):
             "gated_adopts_returned_before_payload_released", "scenarios_with_idle_asyncio_loop", "service_storms", "scenarios_with_bursts", "scenarios_with_replaced_services",
             "window_adopts_judged", "adopts_in_shutdown_window_inside", "adopts_in_shutdown_window_outside",
             "scenarios_with_concurrent_registration_before_start", "forced_redecorated_schedules_checked",
-            "scenarios_in_the_second_run_of_the_same_runner", "adopts_in_the_last_moments_of_the_closing", "plain_callables_called_inside_their_runner"]
+            "scenarios_in_the_second_run_of_the_same_runner", "payloads_queued_on_a_runner_that_is_never_started", "adopts_in_the_last_moments_of_the_closing", "plain_callables_called_inside_their_runner"]
     need += ["services_of_shape_%s_started_exactly_once" % k for k in ("plain", "subclass", "falsy", "redecorated", "valued")]
     need += ["payloads_adopted_repeatedly_before_start"]
     for name in need:
